@@ -38,6 +38,9 @@ HexVal(c) == IF c \in 48..57 THEN c - 48 ELSE IF c \in 97..102 THEN c - 87 ELSE 
 Totient(n) == Cardinality({k \in 1..n : GCD(n, k) = 1})
 B(p) == IF p THEN 1 ELSE 0
 
+RECURSIVE GCDSeq(_)
+GCDSeq(s) == IF Len(s) = 1 THEN s[1] ELSE GCD(s[1], GCDSeq(Tail(s)))
+
 (* out: integer (i), integer sequence (s) or BigNat digits; aux: extra logged values *)
 NumLaw(name, n, m, oi, os, aux) ==
     CASE name = "isprime" -> oi = B(IsPrime(n))
@@ -47,6 +50,7 @@ NumLaw(name, n, m, oi, os, aux) ==
       [] name = "divisors" -> DistinctSeq(os) /\ (\A k \in 1..Len(os) : os[k] >= 1 /\ Divides(os[k], n))
                               /\ \A d \in 1..Isqrt(n) : Divides(d, n) => (InSeq(os, d) /\ InSeq(os, n \div d))
       [] name = "gcd" -> oi = GCD(n, m)
+      [] name = "gcd-list" -> aux # <<>> /\ oi = GCDSeq(aux)          \* the element on ONE list (eager or lazy): gcd of its items
       [] name = "lcm" -> oi = (IF n = 0 \/ m = 0 THEN 0 ELSE (n * m) \div GCD(n, m))
       [] name = "factorial" ->        \* os = digits of n!, aux = digits of (n-1)!
            IF n = 0 THEN os = <<1>> ELSE BigEq(FromDigits(os), BigMulSmall(FromDigits(aux), n))
